@@ -4,6 +4,7 @@ go 1.13
 
 require (
 	github.com/massnetorg/mass-core v0.0.0-20210809014450-d944e876e3fb
+	golang.org/x/crypto v0.0.0-20210322153248-0c34fe9e7dc2
 	massnet.org/mass-wallet v0.0.0
 )
 
